@@ -589,6 +589,13 @@ class AtLeastKInARow(_KInARow):
                 implications.append(If(And([Not(sublist[0]), sublist[1]]), And(sublist[2:])))
             # Ending corner case
             implications.append(If(Not(sublists[-1][1]), Not(Or(sublists[-1][2:]))))
+            # A run cannot start in the last k-1 trials either when an earlier run ends
+            # just before them, so each of those trials can only continue a run (with a
+            # single window the rules above already imply this)
+            if len(sublists) > 1:
+                last = sublists[-1]
+                for i in range(3, len(last)):
+                    implications.append(If(Not(last[i-1]), Not(last[i])))
 
         if not implications:
             return
